@@ -1076,3 +1076,54 @@ pub fn small_program(p: &mut Prng) -> String {
     };
     format!("pub fn main({sig}) -> {ret} {{\n    {body}\n}}\n")
 }
+
+/// Tiny circuits (a handful of gates besides the 161 panic outputs) for the complete sweeps of C16.
+pub fn tiny_program(p: &mut Prng) -> String {
+    let n = p.range(1, 3) as usize;
+    let mut params: Vec<(String, &str)> = vec![];
+    let mut wide = false;
+    for i in 0..n {
+        let t = if !wide && p.chance(1, 5) {
+            wide = true;
+            "u8"
+        } else {
+            "bool"
+        };
+        params.push((format!("p{i}"), t));
+    }
+    if p.chance(1, 8) {
+        let at = p.usize_below(params.len() + 1);
+        params.insert(at, (format!("z{at}"), *p.pick(&["()", "[bool; 0]"])));
+    }
+    let sig = params.iter().map(|(n, t)| format!("{n}: {t}")).collect::<Vec<_>>().join(", ");
+    let bools: Vec<String> = params
+        .iter()
+        .filter_map(|(n, t)| match *t {
+            "bool" => Some(n.clone()),
+            "u8" => Some(format!("({n} > {}u8)", p.below(3))),
+            _ => None,
+        })
+        .collect();
+    if bools.is_empty() {
+        return format!("pub fn main({sig}) -> bool {{\n    true\n}}\n");
+    }
+    let pick = |p: &mut Prng| bools[p.usize_below(bools.len())].clone();
+    let mut expr = |p: &mut Prng| -> String {
+        let a = pick(p);
+        match p.below(6) {
+            0 => a,
+            1 => format!("!{a}"),
+            2 => format!("({a} ^ {})", pick(p)),
+            3 => format!("({a} & {})", pick(p)),
+            4 => format!("({a} | {})", pick(p)),
+            _ => format!("(if {a} {{ {} }} else {{ !{} }})", pick(p), pick(p)),
+        }
+    };
+    let (ret, body) = match p.below(5) {
+        0 | 1 => ("bool".to_string(), expr(p)),
+        2 => ("(bool, bool)".to_string(), format!("({}, {})", expr(p), expr(p))),
+        3 => ("[bool; 2]".to_string(), format!("let v = {}; [v, v]", expr(p))),
+        _ => ("(bool, bool, bool)".to_string(), format!("let v = {}; (v, {}, v)", expr(p), expr(p))),
+    };
+    format!("pub fn main({sig}) -> {ret} {{\n    {body}\n}}\n")
+}
